@@ -330,5 +330,5 @@ func main() {
 	runOps(c, tmp)
 	_ = os.RemoveAll(tmp)
 	runBoundaries(c)
-	c.Finish("per register type: raw-bytes round trip and New(id, own-width value) on zero/all-ones/single-bit/all-but-one-bit/small/byte-boundary/random raw values, ValueFromBytes on nil and EVERY byte length 0..40 (exhaustive sweep of the dispatch: every register type, its ID checked against the registry, and 7 unknown ids), 2*width, 2*width+1 and a longer one (random / all-ones / all-zero content) judged against the register's serialised width (value iff the length is the width, then the little-endian number), unknown ids; registers.New as a constructor: each of the 26 identifiers and 4 unknown ones (arbitrary, empty, a registered one in lower case / with a trailing blank) x 64 values - a register value of EVERY register type (small or full-width raw), the own type in both size classes, pointers to register values, every Go integer type (unsigned of each width, named, signed, negative), byte slices and byte arrays of 32, 31, 33, 4, 2, 0 bytes and of the register's serialised width and one more, nil, string, bool, struct, map, other slices - judged from the property text: no panic, unknown id = error, an accepted result IS a register of the requested identifier (ID, Go type, found by Find), keeps a number that fits / the bytes handed over, own-width values must be accepted, values of another kind (integer <-> 32-byte register, wrong byte length, no number and no bytes) must be refused; random sub-collections (in random order) through legacy JSON and YAML; every textual form of a YAML value (0x/0X, lower/upper/mixed-case and zero-padded digits, decimal, base64:<std base64 of ValueBytes>, each plain and quoted) for every register type alone and mixed inside whole collections, with the collection the document denotes as the expected result; malformed and borderline scalars (wrong widths, broken base64, wrong-case prefixes, repeated and unknown keys); the entries json.Marshal / yaml.Marshal write, read back with plain decoders; 2-4 documents (package-written JSON/YAML, harness-written, malformed) unmarshalled one after another into ONE destination (nil, empty, filled, filled with spare capacity) directly, as a struct field and through helpers.FlagRegisters.Set; for every register type legacy-JSON and YAML documents (alone or among healthy entries, into nil/filled destinations) with ONE entry of another width: no bytes (JSON value '', null, no value field; YAML 'base64:', '0x', '', ~, no value), one byte short, shorter, one byte long, longer, and the exact width as control, the key also in hexadecimal; histories of 3-8 calls on ONE variable (nil / empty / filled / spare capacity): Unmarshal of JSON and YAML documents (directly, as a struct field, through FlagRegisters.Set), Sort, json.Marshal and yaml.Marshal (the variable must stay as it is and what was written must parse back, into a fresh variable, to the same registers: the round trip in every REACHED state), Find of present / absent / unknown IDs, FlagRegisters.Set with an empty path, an unreadable path and a file without a document; boundary families: raw 2^(w-1)-1, 2^(w-1), 2^w-1 of every integer register through YAML (int / uint64 resolution of yaml.v3), keys whose hexadecimal text is 2^64-1, 2^64, 2^64+1, the largest value of the width as a quoted hexadecimal string and three wider ones per register (ParseUint bit size), New on byte slices of length 1, 31, 32, 33, 64; non-trivial = non-zero raw / non-empty collection; distinct = distinct Gallina literal")
+	c.Finish("per register type: raw-bytes round trip and New(id, own-width value) on zero/all-ones/single-bit/all-but-one-bit/small/byte-boundary/random raw values, ValueFromBytes on nil and EVERY byte length 0..40 (exhaustive sweep of the dispatch: every register type, its ID checked against the registry, and 7 unknown ids), 2*width, 2*width+1 and a longer one (random / all-ones / all-zero content) judged against the register's serialised width (value iff the length is the width, then the little-endian number), unknown ids; registers.New as a constructor: each of the 26 identifiers and 4 unknown ones (arbitrary, empty, a registered one in lower case / with a trailing blank) x 80 values - a register value of EVERY register type (small or full-width raw), the own type in both size classes, pointers to register values, every Go integer type (unsigned of each width, named, signed, negative), byte slices and byte arrays of 32, 31, 33, 4, 2, 0 bytes and of the register's serialised width and one more, the same lengths in NAMED byte-slice types (a harness type and registers.TXTConfigSpace: may be refused at any length, never panic, never be cut), nil, string, bool, struct, map, other slices - judged from the property text: no panic, unknown id = error, an accepted result IS a register of the requested identifier (ID, Go type, found by Find), keeps a number that fits / the bytes handed over, own-width values must be accepted, values of another kind (integer <-> 32-byte register, wrong byte length, no number and no bytes) must be refused; random sub-collections (in random order) through legacy JSON and YAML; every textual form of a YAML value (0x/0X, lower/upper/mixed-case and zero-padded digits, decimal, base64:<std base64 of ValueBytes>, each plain and quoted) for every register type alone and mixed inside whole collections, with the collection the document denotes as the expected result; malformed and borderline scalars (wrong widths, broken base64, wrong-case prefixes, repeated and unknown keys); the entries json.Marshal / yaml.Marshal write, read back with plain decoders; 2-4 documents (package-written JSON/YAML, harness-written, malformed) unmarshalled one after another into ONE destination (nil, empty, filled, filled with spare capacity) directly, as a struct field and through helpers.FlagRegisters.Set; for every register type legacy-JSON and YAML documents (alone or among healthy entries, into nil/filled destinations) with ONE entry of another width: no bytes (JSON value '', null, no value field; YAML 'base64:', '0x', '', ~, no value), one byte short, shorter, one byte long, longer, and the exact width as control, the key also in hexadecimal; histories of 3-8 calls on ONE variable (nil / empty / filled / spare capacity): Unmarshal of JSON and YAML documents (directly, as a struct field, through FlagRegisters.Set), Sort, json.Marshal and yaml.Marshal (the variable must stay as it is and what was written must parse back, into a fresh variable, to the same registers: the round trip in every REACHED state), Find of present / absent / unknown IDs, FlagRegisters.Set with an empty path, an unreadable path and a file without a document; boundary families: raw 2^(w-1)-1, 2^(w-1), 2^w-1 of every integer register through YAML (int / uint64 resolution of yaml.v3), keys whose hexadecimal text is 2^64-1, 2^64, 2^64+1, the largest value of the width as a quoted hexadecimal string and three wider ones per register (ParseUint bit size), New on byte slices of length 1, 31, 32, 33, 64; non-trivial = non-zero raw / non-empty collection; distinct = distinct Gallina literal")
 }
